@@ -25,6 +25,10 @@ pub fn static_prop(p: &str) -> Option<&'static str> {
     PROPS.iter().copied().find(|x| *x == p)
 }
 
+pub fn implemented() -> Vec<&'static str> {
+    vec!["C01", "C02", "C04", "C07", "C08"]
+}
+
 pub fn execute(prop: &'static str, tier: Tier, choices: Choices, record_trace: bool) -> Outcome {
     let world = World::new(choices, FaultCfg::default(), record_trace);
     let scn = match prop {
